@@ -566,6 +566,7 @@ NewNode(s, d, scope) ==
               !.cip = Append(@, <<-1>>), !.pic = Append(@, <<>>), !.scope = Append(@, scope),
               !.cutoff = Append(@, DefaultCutoff(d)), !.force = Append(@, FALSE),
               !.nobs = Append(@, {}), !.numH = Append(@, 0), !.inHas = Append(@, FALSE),
+              !.nsubs = Append(@, <<>>),
               !.mrDid = Append(@, TRUE), !.rhs = Append(@, 0), !.created = Append(@, <<>>),
               !.gen = Append(@, 0), !.born = Append(@, IF scope = 0 THEN 0 ELSE s.gen[scope]),
               !.edges = Append(@, <<>>), !.fstale = Append(@, FALSE), !.ninv = Append(@, 0),
@@ -1060,7 +1061,7 @@ StabiliseBegin(s) ==
   IF s.status # "idle" THEN Fail(s, "panic:status") ELSE
   LET s1 == [s EXCEPT !.status = "stabilising", !.round = @ + 1,
                       !.inv = <<>>, !.cutLog = <<>>, !.cbLog = <<>>, !.obsLog = <<>>,
-                      !.invLog = <<>>, !.readLog = <<>>, !.dlv = <<>>, !.order = <<>>,
+                      !.invLog = <<>>, !.readLog = <<>>, !.dlv = <<>>, !.ndlv = <<>>, !.order = <<>>,
                       !.rhsLog = <<>>, !.memoLog = <<>>,
                       !.envAtStart = s.cell, !.subsAtBegin = s.osubs]
       s2 == AddNewObservers([s1 EXCEPT !.newObs = <<>>], s1.newObs, 1)
@@ -1140,11 +1141,27 @@ RunObsHandlers(s, o, n, u, i) ==
            s2 == RunEffects(s1, h.eff, 1, 0)
        IN RunObsHandlers(s2, o, n, u, i + 1)
 
+\* the node's own on_update handlers (incr.rs:402-407; node.rs:977-983): same automaton as a
+\* subscription, but Unnecessary is an ordinary update here
+RECURSIVE RunNodeHandlers(_, _, _, _)
+RunNodeHandlers(s, n, u, i) ==
+  IF ~Ok(s) \/ i > Len(s.nsubs[n]) THEN s ELSE
+  LET h == s.nsubs[n][i] IN
+  IF ~(h.at < s.num) THEN RunNodeHandlers(s, n, u, i + 1) ELSE
+  LET dec == HandlerDecision(h.prev, u) IN
+  IF dec = "" THEN RunNodeHandlers(s, n, u, i + 1) ELSE
+  IF dec \in {"Changed", "Necessary"} /\ Value(s, n) = NoVal THEN Fail(s, "panic:unwrap_handler_value") ELSE
+  RunNodeHandlers([s EXCEPT !.nsubs[n][i].prev = dec,
+                            !.ndlv = Append(@, [n |-> n, i |-> i, u |-> dec,
+                                                v |-> IF dec \in {"Invalidated", "Unnecessary"} THEN NoVal ELSE Value(s, n)])],
+                  n, u, i + 1)
+
 \* one entry of the run queue (state.rs:334-344; node.rs:931-944); observers in id order
 StabiliseHandlersStep(s) ==
   IF ~Ok(s) THEN s ELSE
   LET e == s.runq[1]
-      s1 == [s EXCEPT !.runq = Tail(@)]
+      s0 == [s EXCEPT !.runq = Tail(@)]
+      s1 == IF Alive(s0, e.n) THEN RunNodeHandlers(s0, e.n, e.u, 1) ELSE s0
       obs == s1.nobs[e.n]
       RECURSIVE Each(_, _)
       Each(t, todo) ==
@@ -1196,7 +1213,9 @@ InitState(maxH) ==
    round |-> 0, inv |-> <<>>, runs |-> <<>>, cutLog |-> <<>>, cbLog |-> <<>>, obsLog |-> <<>>,
    invLog |-> <<>>, readLog |-> <<>>, retLog |-> <<>>, dlv |-> <<>>, order |-> <<>>,
    rhsLog |-> <<>>, lastRan |-> <<>>, lastChg |-> <<>>, envAtStart |-> <<>>, subsAtBegin |-> <<>>,
-   ostateH |-> <<>>, osubsH |-> <<>>, armed |-> {}]
+   ostateH |-> <<>>, osubsH |-> <<>>, armed |-> {},
+   \* node-level on_update handlers (Incr::on_update): per node a sequence of [prev, at]; ghost log ndlv
+   nsubs |-> <<>>, ndlv |-> <<>>]
 
 ApiVar(s, v)   == NewNode(s, [k |-> "var", init |-> v], 0)          \* IncrState::var: Scope::Top
 ApiConst(s, v) == NewNode(s, [k |-> "const", init |-> v], s.curScope)
@@ -1250,6 +1269,10 @@ ApiXSum(s, sel, ins) ==
   IN ExpertAddDep(s2, e, s2.n, "none")
 ApiBind(s, lhs, recipe) == NewBind(s, lhs, recipe, s.curScope)
 \* test device: make the observability callback of expert node n panic the next time n becomes observable
+\* Incr::on_update (incr.rs:402-407): the handler is only counted and stored; unlike an observer
+\* subscription it does NOT put the node on the handle-after-stabilisation stack, so it first hears of
+\* the node when the node is next handled for another reason
+ApiOnUpdate(s, n) == [s EXCEPT !.numH[n] = @ + 1, !.nsubs[n] = Append(@, [prev |-> "never", at |-> s.num])]
 ApiXArm(s, n) == [s EXCEPT !.armed = @ \cup {n}]
 ApiSetCutoff(s, n, c) == [s EXCEPT !.cutoff[n] = c]
 
